@@ -59,6 +59,13 @@ int main(int argc, char **argv) {
     if (!strcmp(argv[0], "h_state-stage2")) goto library;
     /* ---- ancestor chain: become the last process of a chain of renamed processes */
     const char *chain = kv(kvs, "chain", "");
+    /* pidns=2: the chain below lives in a NEW PID namespace WITH its own fresh /proc (a container): this process becomes its pid 1, so the
+       "root process" - the ancestor whose parent is pid 1 - is a process of the chain, with a name the state chooses */
+    if (atoi(kv(kvs, "pidns", "0")) == 2) {
+        if (unshare(CLONE_NEWPID | CLONE_NEWNS)) { perror("unshare pid+mnt"); return 3; }
+        pid_t p = fork(); if (p > 0) { int st; while (waitpid(p, &st, 0) < 0 && errno == EINTR) {} _exit(WIFEXITED(st) ? WEXITSTATUS(st) : 99); }
+        if (mount("none", "/", NULL, MS_REC | MS_PRIVATE, NULL) || mount("proc", "/proc", "proc", 0, NULL)) { perror("fresh /proc"); return 3; }
+    }
     if (*chain) {
         char *c = strdup(chain); char *s2 = NULL;
         for (char *nm = strtok_r(c, "/", &s2); nm; nm = strtok_r(NULL, "/", &s2)) {
@@ -71,7 +78,7 @@ int main(int argc, char **argv) {
     /* ---- a new PID namespace WITHOUT a fresh /proc (unshare --pid --fork without --mount-proc, nsenter -m, a container with the host's
        /proc bound in): this process is pid 1 of its namespace, its parent has no number there, and the numbers under /proc are those of
        the outer namespace - /proc/<getpid()> is some other process; /proc/self still is this one */
-    if (atoi(kv(kvs, "pidns", "0"))) { if (unshare(CLONE_NEWPID)) { perror("unshare pid"); return 3; } pid_t p = fork(); if (p > 0) { int st; while (waitpid(p, &st, 0) < 0 && errno == EINTR) {} _exit(WIFEXITED(st) ? WEXITSTATUS(st) : 99); } prctl(PR_SET_NAME, "h_state", 0, 0, 0); }
+    if (atoi(kv(kvs, "pidns", "0")) == 1) { if (unshare(CLONE_NEWPID)) { perror("unshare pid"); return 3; } pid_t p = fork(); if (p > 0) { int st; while (waitpid(p, &st, 0) < 0 && errno == EINTR) {} _exit(WIFEXITED(st) ? WEXITSTATUS(st) : 99); } prctl(PR_SET_NAME, "h_state", 0, 0, 0); }
     const char *selfname = kv(kvs, "self", ""); if (*selfname) { char *n = unhex(selfname); prctl(PR_SET_NAME, n, 0, 0, 0); }
     /* ---- host name in a private UTS namespace */
     const char *host = kv(kvs, "host", "-");
@@ -189,7 +196,7 @@ library:
     unsigned ru, eu, su, rgi, egi, sgi; syscall(SYS_getresuid, &ru, &eu, &su); syscall(SYS_getresgid, &rgi, &egi, &sgi);
     printf("\"f\":{\"ruid\":%u,\"euid\":%u,\"suid\":%u,\"rgid\":%u,\"egid\":%u,\"sgid\":%u,\"pid\":%ld,\"tid_kernel\":%ld,\"tid\":%lu,", ru, eu, su, rgi, egi, sgi, syscall(SYS_getpid), syscall(SYS_gettid), (unsigned long)pthread_self());
     { char *st = slurp("/proc/self/stat"); char *rp = strrchr(st, ')'); long ppid = -1, pgrp = -1, sid = -1; char stc; if (rp) sscanf(rp + 1, " %c %ld %ld %ld", &stc, &ppid, &pgrp, &sid);
-      if (atoi(kv(kvs, "pidns", "0"))) { ppid = syscall(SYS_getppid); sid = syscall(SYS_getsid, 0); }   /* the numbers in a foreign /proc are not this namespace's */
+      if (atoi(kv(kvs, "pidns", "0")) == 1) { ppid = syscall(SYS_getppid); sid = syscall(SYS_getsid, 0); }   /* the numbers in a foreign /proc are not this namespace's */
       printf("\"ppid\":%ld,\"sid\":%ld,", ppid, sid); }
     { char l[PATH_MAX * 2]; ssize_t n = readlink("/proc/self/cwd", l, sizeof l - 1); if (n < 0) n = 0; l[n] = 0; jhex("cwd_link", l); printf(",\"cwd_link_len\":%zd,", n); jhex("cwd_built", deep_path); printf(","); }
     { char l[512]; ssize_t n = readlink("/proc/self/fd/0", l, sizeof l - 1); if (n < 0) { n = 0; } l[n] = 0; struct stat sb; int fs = fstat(0, &sb); jhex("fd0", l); printf(",\"fd0_isatty\":%d,\"fd0_uid\":%ld,", isatty(0), fs == 0 ? (long)sb.st_uid : -1L); }
